@@ -24,6 +24,7 @@ CLAUSE_TEXT = {
     "KeptInPlace": "an unchanged entry that is not beneath a changed one is not kept in place",
     "UnmountOrder": "an entry is unmounted before an entry listed after it in the profile and mounted beneath it",
     "UnmountOrderTrue": "an entry is unmounted before an entry that was mounted beneath it after it",
+    "UnmountOrder.entry-beneath-stays-kept": "an entry is unmounted while an entry mounted beneath it after it is kept (never unmounted)",
     "MountOrder": "an entry is mounted before a same-origin entry whose directory contains it",
     "HistoryChain": "harness: current profile is not the previously recorded one",
     "HistoryStart": "harness: history does not start from the empty / snap-confine namespace",
